@@ -1,7 +1,7 @@
 """Translator anchors for fedjax/datasets/stackoverflow.py (C20): the tokenizer's
 reserved ids, the id offset of vocabulary words, the x / y shift and the defaults."""
 import ast
-from lib.c20tr import A_no_process_dependence, D, _T, _unsupported, zdef, _first_assign, A_classconsts, A_default
+from lib.c20tr import A_forwarding, A_no_process_dependence, D, _T, _unsupported, zdef, _first_assign, A_classconsts, A_default
 
 SRC = 'fedjax/datasets/stackoverflow.py'
 
@@ -73,6 +73,12 @@ MODULES = {
             A_default('StackoverflowTokenizer.__init__', 'num_oov_buckets', 'tok_default_num_oov_buckets'),
             _token_to_ids,
             A_no_process_dependence('stackoverflow_is_process_independent'),
+            A_forwarding('load_data', 'load_split', 'so_load_data_forwards'),
+            A_forwarding('StackoverflowTokenizer.__init__', 'default_vocab', 'so_tokenizer_forwards_vocab_size'),
+            A_forwarding('StackoverflowTokenizer.__init__', 'super().__init__', 'so_tokenizer_forwards_buckets',
+                         callee_qual='DefaultWordTokenizer.__init__'),
+            A_forwarding('DefaultWordTokenizer.as_preprocess_batch', 'self.create_token_to_ids_fn', 'so_as_preprocess_batch_forwards',
+                         callee_qual='DefaultWordTokenizer.create_token_to_ids_fn'),
         ],
     },
 }
